@@ -423,3 +423,91 @@ pub mod trace {
         KEEP.with(|k| k.borrow_mut().as_mut().map(std::mem::take).unwrap_or_default())
     }
 }
+
+// ---------------------------------------------------------------------------------------------
+// watchdog: a busy loop *inside one poll* cannot be preempted from the polling thread, so a
+// separate thread watches how long each worker has been inside its current case
+// ---------------------------------------------------------------------------------------------
+
+pub mod watchdog {
+    use serde_json::Value;
+    use std::sync::{Arc, Mutex, OnceLock};
+    use std::time::{Duration, Instant};
+
+    /// describes the case a worker is executing: (signature, summary, replay scenario)
+    pub type Describe<'a> = dyn Fn() -> (String, String, Value) + Sync + 'a;
+
+    struct Slot {
+        since: Instant,
+        // lifetime-erased pointer to a closure on the worker's stack; only dereferenced while the
+        // slot lock is held and the worker is still inside `guard`
+        desc: Option<*const Describe<'static>>,
+    }
+    unsafe impl Send for Slot {}
+
+    static SLOTS: OnceLock<Mutex<Vec<Arc<Mutex<Slot>>>>> = OnceLock::new();
+
+    thread_local! {
+        static MY: Arc<Mutex<Slot>> = {
+            let s = Arc::new(Mutex::new(Slot { since: Instant::now(), desc: None }));
+            SLOTS.get_or_init(|| Mutex::new(vec![])).lock().unwrap().push(s.clone());
+            s
+        };
+    }
+
+    /// run `f` as one case; if it does not return within the watchdog limit the watchdog thread
+    /// reports `desc()` as a violation and ends the process
+    pub fn guard<R>(desc: &Describe<'_>, f: impl FnOnce() -> R) -> R {
+        let ptr: *const Describe<'_> = desc;
+        // erase the lifetime: the pointer is cleared before this function returns
+        let ptr: *const Describe<'static> = unsafe { std::mem::transmute(ptr) };
+        MY.with(|m| {
+            let mut s = m.lock().unwrap();
+            s.since = Instant::now();
+            s.desc = Some(ptr);
+        });
+        let r = f();
+        MY.with(|m| m.lock().unwrap().desc = None);
+        r
+    }
+
+    /// start the watchdog thread for a check (or a replay, with `property` taken from the file)
+    pub fn start(property: &str, tier: &str, limit: Duration, replay_of: Option<String>) {
+        let property = property.to_string();
+        let tier = tier.to_string();
+        std::thread::spawn(move || loop {
+            std::thread::sleep(Duration::from_millis(250));
+            let slots: Vec<Arc<Mutex<Slot>>> = SLOTS.get_or_init(|| Mutex::new(vec![])).lock().unwrap().clone();
+            for s in slots {
+                let g = s.lock().unwrap();
+                if let Some(p) = g.desc {
+                    if g.since.elapsed() > limit {
+                        let (sig, summary, scenario) = unsafe { (*p)() };
+                        let sig = format!("no-progress:{sig}");
+                        let summary = format!("a single case did not return within {limit:?} (spin without progress): {summary}");
+                        eprintln!("  [{sig}] {summary}");
+                        if let Some(path) = &replay_of {
+                            println!("replay: [{sig}] {summary}");
+                            println!("VIOLATION property={property} replay={path}");
+                            std::process::exit(1);
+                        }
+                        let h = crate::report::hash_of(&(sig.clone(), summary.clone()));
+                        let path = format!("{}/replays/{}-{:016x}.json", crate::report::VERIF_DIR, property, h);
+                        let _ = std::fs::create_dir_all(format!("{}/replays", crate::report::VERIF_DIR));
+                        let doc = serde_json::json!({"property": property, "signature": sig, "summary": summary, "scenario": scenario});
+                        let _ = std::fs::write(&path, serde_json::to_string_pretty(&doc).unwrap());
+                        // the run cannot be completed: evidence says so instead of inventing counts
+                        let ev = serde_json::json!({
+                            "property_id": property, "tier": tier, "seed": 0, "level": "other",
+                            "coverage": {"explanation": format!("run aborted by the watchdog: {summary}; replay {path}"), "exhaustive": false},
+                            "wall_s": 0.0, "violations": 1
+                        });
+                        let _ = std::fs::write(format!("{}/evidence/{}.json", crate::report::VERIF_DIR, property), serde_json::to_string_pretty(&ev).unwrap());
+                        println!("VIOLATION property={property} replay={path}");
+                        std::process::exit(1);
+                    }
+                }
+            }
+        });
+    }
+}
